@@ -468,6 +468,41 @@ def gw_prestate(m, tables, pa, c, recv):
     # disjunctions (`a() || b()`) and merged arms leave no dominating guard: walk from the point where the receiver
     # is obtained (the element of this iteration / the navigation call) to the site, once per state, deciding every
     # predicate on the receiver's own state - sound as long as nothing writes the receiver on the way
+    # the element of a filtered iteration (`children.iter().filter(|t| !t.state().is_completed())`): only states for which
+    # the predicate closure can say yes (read as a truth table over the state predicates it tests on its argument)
+    if recv[0] == "call" and re.search(r"Filter<.*> as .*Iterator>::next$", recv[1]):
+        from vlib import quant
+        it = pa.root(f, Call(f, recv[2]).args[0])
+        for _ in range(4):
+            if it[0] == "call" and re.search(r"Iterator(>)?::filter(::<.*>)?$", it[1]):
+                break
+            if it[0] == "call" and re.search(r"IntoIterator>::into_iter$|::by_ref$|Iterator>::(rev|peekable)$", it[1]):
+                it = pa.root(f, Call(f, it[2]).args[0])
+                continue
+            break
+        if it[0] == "call" and re.search(r"Iterator(>)?::filter(::<.*>)?$", it[1]):
+            fc = Call(f, it[2])
+            k = pa.root(f, fc.args[1]) if len(fc.args) > 1 else ("?",)
+            if k[0] == "closure" and k[1] in m.fns:
+                gcl = m.fns[k[1]]
+
+                def classify(x, gcl=gcl):
+                    mt = T.STATE_PRED.match(x.q)
+                    if mt and x.args:
+                        sr = pa.root(gcl, x.args[0])
+                        if sr[0] == "call" and sr[1] == T.Q_STATE and pa.root(gcl, Call(gcl, sr[2]).args[0])[:2] == ("param", 2):
+                            return ("P:" + mt.group(1), False)
+                    return None
+                table = quant.closure_truth(m, gcl, classify)
+                if table is not None:
+                    keep = set()
+                    names = {n_ for asg, _ in table for n_ in asg} | {v_[1] for _, v_ in table if isinstance(v_, tuple)}
+                    for v in T.STATES:
+                        total = {n_: tables[n_[2:]][v] for n_ in names}
+                        vals = quant.table_value(table, total)
+                        if vals != {False}:
+                            keep.add(v)
+                    pre &= keep
     starts = []
     if recv[0] == "call":
         starts = [recv[2]]
